@@ -12,9 +12,8 @@ event encoding (5 integers each):  [code, a, b, c, t]
 import json
 import sys
 
+import c12_lib as L   # imports renormalizer before numpy
 import numpy as np
-
-import c12_lib as L
 import renormalizer.tn.time_evolution as te
 import renormalizer.tn.tree as tr
 import renormalizer.mps.mps as mm
